@@ -29,11 +29,15 @@ REQUIRED_COUNTERS = ['overhang_present', 'no_overhang', 'party_outside_tier', 'p
                      'levelling_iterations_ge2', 'by_constituency', 'multistage_wrapped',
                      'allow', 'level', 'd_hondt', 'sainte_lague', 'hare_lr', 'tie_in_baseline', 'multistage_depth2']
 RULE = ('second-vote dicts over 2-6 parties (tie-forcing small sets, zero-vote parties, up to 10^12, some Fractions); '
-        'baseline house sizes 1..30; direct-seat maps with sum <= house size (proportional-like, skewed, random; parties '
-        'with direct seats but no proportional seat; parties without a votes entry); proportional evaluator in '
-        "{HighestAverages('d_hondt'), HighestAverages('sainte_lague'), LargestRemainder('hare')}; calculators AllowOverhang, "
-        'LevelOverhang, LevelOverhangByConstituency (2-3 constituencies, fixed apportionment), alone, inside '
-        'AdjustedSeatCount, and inside MultistageDistributor([direct-seat stage, AdjustedSeatCount]). Non-trivial = a '
+        'baseline house sizes 1..30; direct-seat maps with sum <= house size (none, below the share, skewed above it, '
+        'random; parties with direct seats but no proportional seat; parties without a votes entry); proportional '
+        "evaluator in {HighestAverages('d_hondt'), HighestAverages('sainte_lague'), LargestRemainder('hare')}; calculators "
+        'AllowOverhang, LevelOverhang (flat) and LevelOverhangByConstituency (2-3 constituencies with fixed apportionment '
+        '0..8, overall evaluator given), alone (overhang_calc) and inside AdjustedSeatCount (adjusted_eval; distributing '
+        'evaluator = the same or another of the three, ByParty(overall, allocator) for the by-constituency variant), bare '
+        'or as second stage of MultistageDistributor([direct-seat stage, AdjustedSeatCount]) with depth 1 / 2; levelling '
+        'bounded by 200 evaluator calls on both sides. Thorough tier adds all vote vectors {0..3}^2 (n<=5) and {0..2}^3 '
+        '(n<=3) x all direct maps (entries <= 2, one party without votes) x 3 evaluators x {allow, level}. Non-trivial = a '
         'non-error result with at least one direct seat; distinct by canonical request.')
 NOT_VERIFIED = [
     'HighestAverages is the C01 model (unordered pool instead of the sorted list with bisect re-insertion); Tie keys are '
@@ -59,7 +63,7 @@ UNPROVED = [
     'termination and the literal least-enlargement statement ARE proved for the largest-remainder model)',
     'level_terminates when the baseline result contains a Tie key (the tie need not recur)',
 ]
-EXHAUSTIVE = {'thorough': False}
+EXHAUSTIVE = {'thorough': True}
 NAMES = Names(prefix='p')
 CNAMES = Names(prefix='c')
 EVALS = ['d_hondt', 'sainte_lague', 'hare_lr']
